@@ -23,7 +23,11 @@ def serve():
             os.close(r)
             try:
                 glom.core.PATH_STAR = req.get('star', True)
-                out = pyspec.run_glom(req['case'])
+                if 'scenario' in req:
+                    import props.c06 as c06
+                    out = c06.scenario_outcome(req['scenario'])
+                else:
+                    out = pyspec.run_glom(req['case'])
             except BaseException as e:  # noqa: B036
                 out = {'cold_error': '%s: %s' % (type(e).__name__, e)}
             with os.fdopen(w, 'w') as f:
@@ -44,6 +48,11 @@ class Cold:
         env['PYTHONHASHSEED'] = '0'
         self.p = subprocess.Popen([sys.executable, os.path.abspath(__file__)], stdin=subprocess.PIPE, stdout=subprocess.PIPE,
                                   text=True, env=env)
+
+    def ask_scenario(self, name, star=True):
+        self.p.stdin.write(json.dumps({'scenario': name, 'star': star}) + '\n')
+        self.p.stdin.flush()
+        return json.loads(self.p.stdout.readline())
 
     def ask(self, case, star=True):
         self.p.stdin.write(json.dumps({'case': case, 'star': star}) + '\n')
